@@ -69,6 +69,18 @@ def main(argv=None):
   if a.replay:
     return replay_file(prop, a.replay)
 
+  # engine self-test first: known-true clauses must be proved, known-false ones refuted (contracts/self_engine.py)
+  if not os.environ.get("VERIF_SKIP_SELFTEST"):
+    from . import selftest
+    t_self = time.time()
+    problems = selftest.run()
+    if problems:
+      for pr in problems:
+        print("CHECKER-ERROR property=%s engine self-test: %s" % (prop, pr))
+      return 3
+    if a.v:
+      print("engine self-test ok (%.1fs)" % (time.time() - t_self))
+
   units = driver.load_units(prop)
   if a.unit:
     units = [u for u in units if u.name in a.unit]
